@@ -48,6 +48,9 @@ def concrete_failures(desc, algo, policy, costs):
 
 
 def replay(data):
+    if "flags" in data:
+        from checks import sr_common as SR
+        return SR.replay(data)
     fails = concrete_failures(data["desc"], data["algo"], data["policy"], H.cost_unjson(data["costs"]))
     for k, t in fails:
         print(f"  reproduced: {k}: {t}")
@@ -212,6 +215,8 @@ def main(argv=None):
     rep.add_results("exhaustive-small", res, skipped, exhaustive=True)
     res, skipped = R.run_sharded(worker, [mk(d, ["thl", "exh"]) for d in sample], budget)
     rep.add_results("sampled-larger", res, skipped, exhaustive=False)
+    from checks import sr_common as SR
+    rep.add_results("F-COHERENCE witness (outside the coherent region; concrete replay only)", [SR.coherence_witness_result(PROP)], 0, exhaustive=None)
     import superrec2.compute.reconciliation as m1, superrec2.compute.exhaustive as m2
     import superrec2.utils.dynamic_programming as m3, superrec2.model.reconciliation as m4
     rep.functions = R.source_digest(
